@@ -7,7 +7,7 @@ seeds=${1:-30}; runs=${2:-20000}
 cd /verif/tasksim && cargo build --release --offline -q || exit 2
 bin=/verif/tasksim/target/release/tasksim
 bad=0; n=0
-for fam in C01 C02 C03 C19 C16 C16async C05 C06 C07 C07enum C08 C09 C10 C11 C12 C13 C14 C15 C17 C20; do
+for fam in C01 C02 C03 C04 C19 C16 C16async C05 C06 C07 C07enum C08 C09 C10 C11 C12 C13 C14 C15 C17 C20; do
   for seed in $(seq 1 $seeds); do
     a=$($bin digest $fam --seed $seed --runs $runs --jobs 1)
     b=$($bin digest $fam --seed $seed --runs $runs --jobs 16)
